@@ -19,7 +19,7 @@ import (
 // row is one line of enum_table.ndjson (see spec/Enum.tla); which fields are
 // meaningful depends on Kind.
 type row struct {
-	Kind string `json:"kind"` // kw | member | set
+	Kind string `json:"kind"` // kw | member | set | field
 	Fam  string `json:"fam"`
 	// kw, member
 	V    string `json:"v"`
@@ -35,6 +35,12 @@ type row struct {
 	Toks   []tok `json:"toks"`
 	POK    bool  `json:"pok"`
 	PBack  []int `json:"pback"`
+	// field (uses v, name, printed = the node as printed, ok, back as well)
+	Node    string `json:"node"`
+	Field   string `json:"field"`
+	Place   string `json:"place"`   // numbered | inline
+	Omitted bool   `json:"omitted"` // the node prints as it does with the zero value
+	Mate    int    `json:"mate"`    // table index (from 1) of the row of the other place
 
 	panicMsg string
 	perr     string
